@@ -31,7 +31,7 @@ func init() {
 		Run:            runC18,
 		Replay:         replayC18,
 		MinOutcomes:    20,
-		QuickBudget:    150 * time.Second,
+		QuickBudget:    240 * time.Second,
 		ThoroughBudget: 25 * time.Minute,
 	})
 }
@@ -483,6 +483,8 @@ func c18Exec(hist []string) (res explore.SeqResult) {
 	return res
 }
 
+var c18Late = map[string]bool{"post:C1:mac": true, "cat::Caf%8E": true, "replygone:C1:1": true}
+
 func c18Alphabet() []string {
 	return []string{
 		"bundle::B2", "bundle:B1:B3", "cat::C3", "cat:B1:C2", "cat::<<", "bundle:B1:<<", "post:C1:tabnl", "post:C1:leadnl", "post:<<:small", "post:C1:mac", "cat::Caf%8E", "replygone:C1:1",
@@ -646,7 +648,16 @@ func runC18(w *explore.Worker) {
 	if w.Thorough {
 		depth = 5
 	}
-	explore.ExploreHistories(w, explore.SeqConfig{Name: "C18news", Alphabet: c18Alphabet(), Depth: depth, Exec: c18Exec})
+	// the operations added last (Mac Roman texts and names, a reply to a missing article) are explored one level less
+	// deep than the rest: with them the deepest level alone would take the whole budget
+	var base []string
+	for _, op := range c18Alphabet() {
+		if !c18Late[op] {
+			base = append(base, op)
+		}
+	}
+	explore.ExploreHistories(w, explore.SeqConfig{Name: "C18news", Alphabet: base, Depth: depth, Exec: c18Exec})
+	explore.ExploreHistories(w, explore.SeqConfig{Name: "C18news-all-operations", Alphabet: c18Alphabet(), Depth: depth - 1, Exec: c18Exec})
 }
 
 func replayC18(w *explore.Worker, raw json.RawMessage) {
